@@ -7,7 +7,8 @@
 (* anchors \A \z, and a pattern-wide (?i) flag.  An expression is a record *)
 (*   [k |-> "lit", c]  [k |-> "cls", cs]  [k |-> "any"]                     *)
 (*   [k |-> "cat" | "alt", x, y]  [k |-> "opt" | "star" | "plus", x]        *)
-(*   [k |-> "bol" | "eol" | "bot" | "eot"]                                  *)
+(*   [k |-> "bol" | "eol" | "bot" | "eot"]   [k |-> "grp", x] (a capturing  *)
+(*   group written by the author: same language, one more capture)         *)
 (* Matches(re, ci, s) says whether the pattern matches somewhere in s.     *)
 (* C11: with the prefilter on, @rx must return exactly this, and the same  *)
 (* captures as with the prefilter off.  RxPF_MC enumerates expressions to  *)
@@ -30,6 +31,7 @@ Ends(re, ci, s, i) ==
     [] re.k = "any"  -> IF i <= Len(s) THEN {i + 1} ELSE {}          \* (?s): dot matches newline
     [] re.k = "cat"  -> UNION {Ends(re.y, ci, s, j) : j \in Ends(re.x, ci, s, i)}
     [] re.k = "alt"  -> Ends(re.x, ci, s, i) \cup Ends(re.y, ci, s, i)
+    [] re.k = "grp"  -> Ends(re.x, ci, s, i)                            \* a capturing group: same language
     [] re.k = "opt"  -> {i} \cup Ends(re.x, ci, s, i)
     [] re.k = "star" -> StarEnds(re.x, ci, s, {i}, {i})
     [] re.k = "plus" -> LET first == Ends(re.x, ci, s, i) IN IF first = {} THEN {} ELSE StarEnds(re.x, ci, s, first, first)
@@ -47,6 +49,6 @@ MinLen(re) ==
   CASE re.k \in {"lit", "cls", "any"} -> 1
     [] re.k = "cat"  -> MinLen(re.x) + MinLen(re.y)
     [] re.k = "alt"  -> IF MinLen(re.x) < MinLen(re.y) THEN MinLen(re.x) ELSE MinLen(re.y)
-    [] re.k = "plus" -> MinLen(re.x)
+    [] re.k \in {"plus", "grp"} -> MinLen(re.x)
     [] OTHER -> 0
 =============================================================================
